@@ -677,7 +677,28 @@ impl TypeChecker {
         }
 
         let callee_ty = self.check_expr(callee);
-        self.check_call_args(args);
+        let arg_types = self.check_call_arg_types(args);
+
+        // A call of a declared function: its arguments must have the declared parameter types.
+        if let Expr::Ident(name) = &callee.node {
+            let params = self.symbols.lookup(name).and_then(|id| self.symbols.get(id)).and_then(|sym| match &sym.kind {
+                SymbolKind::Function(info) => Some(info.params.clone()),
+                _ => None,
+            });
+            if let Some(mut params) = params {
+                // A parameter typed by a trait accepts any adopter; that is not decided here.
+                for (_, ty) in params.iter_mut() {
+                    let is_trait = matches!(ty, ResolvedType::Named(n) if matches!(
+                        self.symbols.lookup(n).and_then(|id| self.symbols.get(id)).map(|s| &s.kind),
+                        Some(SymbolKind::Trait(_))
+                    ));
+                    if is_trait {
+                        *ty = ResolvedType::Unknown;
+                    }
+                }
+                self.validate_method_call_args(&params, args, &arg_types);
+            }
+        }
 
         match callee_ty {
             ResolvedType::Function(_, ret) => *ret,
